@@ -1112,7 +1112,7 @@ PWG_FAMS = ["generic", "generic", "generic", "equator", "seam", "seam", "meridia
 GCA_FAMS = ["generic", "generic", "generic", "seam", "polar", "pole_ref",
             "short_pair", "short_pair", "shallow", "near_meridian", "near_through_pole", "near_equator"]
 EXT_FAMS = ["generic", "generic", "short", "equator_sym", "meridian", "pole_endpoint", "high_lat", "long"]
-N_CASES = {"quick": (2800, 40, 1800, 600), "thorough": (52000, 400, 30000, 11000)}
+N_CASES = {"quick": (2800, 40, 1800, 600), "thorough": (45000, 400, 26000, 10000)}
 
 
 def gen_cases(ck):
